@@ -1,5 +1,5 @@
 (* Properties/C10.v — Item routing is a stable, total function of the id and the partition count. *)
-From Verif Require Import Base.Prelude Routing.Model Routing.Proofs Generated.Facts.
+From Verif Require Import Base.Prelude Routing.Model Routing.Proofs Routing.Translated Generated.Translated Generated.Facts.
 From Coq Require Import String.
 Open Scope N_scope.
 
@@ -13,6 +13,11 @@ Lemma C10_facts_ok :
   (* a batch is grouped by appending each item to the group of getPartitionForId(item id) *)
   batch_grouping_shape = Known true.
 Proof. repeat split; reflexivity. Qed.
+
+(* tie (b): utils.UuidMod as TRANSLATED from utils/uuid.go on this run (Generated/Translated.v: 64-bit wrap-around and the
+   division by a zero count written out) is the modelled hash, for every id and every count *)
+Theorem C10_translated : forall id m, go_UuidMod id m = uuid_mod_go id m.
+Proof. exact go_UuidMod_is_model. Qed.
 
 (* total and in range for every 128-bit id and every non-zero count (any uint64) *)
 Theorem C10_range : forall lo hi m, 0 < m -> uuid_mod lo hi m < m.
@@ -54,6 +59,7 @@ Example C10_nonvacuous : uuid_mod 18446744073709551615 18446744073709551615 1000
 Proof. vm_compute. reflexivity. Qed.
 
 Print Assumptions C10_range.
+Print Assumptions C10_translated.
 Print Assumptions C10_value.
 Print Assumptions C10_total.
 Print Assumptions C10_locality.
